@@ -9,7 +9,7 @@ From Muscle Require Import Gen.Consts Pat.Ere Pat.Translate.
 Import ListNotations.
 Local Open Scope N_scope.
 
-Definition ch_comma : N := 44.
+Definition ck_comma : N := 44.
 
 (* the comma-separated-list-of-unique-values loop (1577-1598): [scratch] is scratchStr, kept reversed.
    [keep_esc] = the repair of finding F39: the escape characters stay in the item (as found they are dropped here
@@ -20,7 +20,7 @@ Fixpoint uv_loop (keep_esc : bool) (s : list N) (prevEsc : bool) (scratch : list
   | c :: t =>
     let curEsc := (c =? ch_bsl) && negb prevEsc in
     if curEsc then uv_loop keep_esc t true (if keep_esc then c :: scratch else scratch)
-    else if prevEsc || negb (c =? ch_comma) then uv_loop keep_esc t false (c :: scratch)
+    else if prevEsc || negb (c =? ck_comma) then uv_loop keep_esc t false (c :: scratch)
     else if is_nil scratch then uv_loop keep_esc t false []
     else rev scratch :: uv_loop keep_esc t false []
   end.
